@@ -287,8 +287,13 @@ def run(ctx):
                 bad.append('unpaused event not cleared for zero concurrency')
     ck.expect(not bad and len(leaves) >= 5, 'C13-D4', cs.qual, 'concurrency setter table (%d rows)' % len(leaves),
               'concurrency change handling differs from the reference: %s' % '; '.join(bad[:3]), cs.loc())
-    loopbody_ok = any(isinstance(lp, ast.For) and norm_text(lp.iter) == 'range(abs(change))' and any(
-        U.attr_name(c) == 'put_poison_nowait' for b in lp.body for c in U.calls(b)) for lp in walk_no_nested(cs.node))
+    loopbody_ok = False
+    for lp in walk_no_nested(cs.node):
+        b_ = {}
+        if isinstance(lp, ast.For) and (U.like(lp.iter, 'range(abs(L_c))', b_) or U.like(lp.iter, 'range(-L_c)', b_)) and any(
+                U.attr_name(c) == 'put_poison_nowait' for b in lp.body for c in U.calls(b)):
+            d_ = U.local_defs(cs.node).get(b_['L_c'], [])
+            loopbody_ok = any(v is not None and norm_text(v) == '%s - self._concurrency' % cs.params[1] for v, k_, s_ in d_)
     ck.expect(loopbody_ok, 'C13-D4', cs.qual, 'shrink loop sends one pill per removed worker', 'shrink loop changed', cs.loc())
 
     # ------------------------------------------------------------------ D5
@@ -309,7 +314,7 @@ def run(ctx):
     okw = any(norm_text(U.kwarg(c, 'return_when') or ast.Constant(value=None)) == 'asyncio.FIRST_COMPLETED' and norm_text(c.args[0]) == 'self._worker_tasks' for c in waitc)
     ck.expect(okw, 'C13-D5', pw.qual, 'waits for the first finished worker of self._worker_tasks', 'worker wait changed', pw.loc())
     okspawn = any(isinstance(w, ast.While) and norm_text(w.test) == 'len(self._worker_tasks) < self._concurrency'
-                  and any('self._worker.process()' in norm_text(b) for b in w.body) and any(norm_text(b) == 'self._worker_tasks.add(worker_task)' for b in w.body)
+                  and any('self._worker.process()' in norm_text(b) for b in w.body) and any(U.like(b, 'self._worker_tasks.add(L_t)') for b in w.body)
                   for w in walk_no_nested(pw.node))
     ck.expect(okspawn, 'C13-D5', pw.qual, 'workers spawned while fewer than the concurrency', 'worker spawning changed', pw.loc())
     rw = repo.func(PIPE + ':Pipeline._run_producer_wrapper')
@@ -395,15 +400,16 @@ def run(ctx):
         calls_g = [norm_text(c) for c in sorted(U.calls(g.node), key=lambda c: c.lineno)]
         okg = 'self.stop()' in calls_g and 'forceful_stop_callback()' in calls_g
         # forceful only when already called
-        okg = okg and any(isinstance(i, ast.If) and norm_text(i.test) == 'graceful_called' and any(
+        b_ = {}
+        okg = okg and any(isinstance(i, ast.If) and U.like(i.test, 'L_flag', b_) and any(
             'forceful_stop_callback()' in norm_text(b) for b in i.body) and isinstance(i.body[-1], ast.Return) for i in walk_no_nested(g.node))
-        okg = okg and any(norm_text(s) == 'graceful_called = True' for s in walk_no_nested(g.node) if isinstance(s, ast.Assign))
-        okg = okg and any(norm_text(c) == 'event_loop.stop()' for c in U.calls(fcb.node))
-        regs = [norm_text(c) for c in U.calls(sh.node, attr='add_signal_handler')]
-        okg = okg and 'event_loop.add_signal_handler(signal.SIGINT, graceful_stop_callback)' in regs
+        okg = okg and any(U.like(s, 'L_flag = True', dict(b_)) for s in walk_no_nested(g.node) if isinstance(s, ast.Assign))
+        okg = okg and any(U.like(c, 'L_loop.add_signal_handler(signal.SIGINT, graceful_stop_callback)') for c in U.calls(sh.node, attr='add_signal_handler'))
+        okg = okg and any(U.like(c, 'L_loop.stop()') for c in U.calls(fcb.node))
     ck.expect(okg, 'C13-D7', sh.qual, 'first SIGINT -> Application.stop(); second -> forceful stop',
               'signal handler wiring changed', sh.loc())
     arun = repo.func(APP + '.run')
-    okrun = any(norm_text(s) == 'self._current_pipeline = pipeline' for s in walk_no_nested(arun.node) if isinstance(s, ast.Assign)) \
-        and any('pipeline.process()' in norm_text(y) for y in walk_no_nested(arun.node) if isinstance(y, ast.YieldFrom))
+    b_ = {}
+    okrun = any(U.like(s, 'self._current_pipeline = L_p', b_) for s in walk_no_nested(arun.node) if isinstance(s, ast.Assign)) \
+        and any(U.like(y, 'yield from L_p.process()', dict(b_)) for y in walk_no_nested(arun.node) if isinstance(y, ast.YieldFrom))
     ck.expect(okrun, 'C13-D7', arun.qual, 'current pipeline recorded before it is processed', 'Application.run wiring changed', arun.loc())
